@@ -79,6 +79,11 @@ package gortsplib
 //@   assert[C02]@store:state#5 old(req.Method) == base.Pause && old(ss.state) == ServerSessionStatePlay
 //@   assert[C02]@store:state#6 old(req.Method) == base.Pause && old(ss.state) == ServerSessionStateRecord
 //@   ensures[C02] stateful(old(req.Method)) && !legalIn(old(ss.state), old(req.Method)) ==> ss.state == old(ss.state) && err != nil && ret0 != nil && ret0.StatusCode == base.StatusBadRequest
+// Over interleaved TCP the connection reader has two modes (requests only / requests and frames). Every
+// request that takes the session out of a streaming state (PAUSE; the entering half is not claimed) tells the reader
+// to switch by returning a switchReadFuncError: a reader left in streaming mode after PAUSE would go on
+// dispatching frames to a session that no longer expects them.
+//@   ensures[C02] (old(ss.state) == ServerSessionStatePlay || old(ss.state) == ServerSessionStateRecord) && ss.state != old(ss.state) && ss.setuppedTransport != nil && ss.setuppedTransport.Protocol == ProtocolTCP ==> istype(err, "switchReadFuncError")
 //@   ensures[C19] old(ss.tcpConn) != nil && sc != old(ss.tcpConn) ==> err != nil && ret0 != nil && ret0.StatusCode == base.StatusBadRequest && ss.state == old(ss.state)
 //@   ensures[C02] ss.state == old(ss.state) || (old(ss.state) == ServerSessionStateInitial && ss.state == ServerSessionStatePreRecord) || (old(ss.state) == ServerSessionStateInitial && ss.state == ServerSessionStatePrePlay) || (old(ss.state) == ServerSessionStatePrePlay && ss.state == ServerSessionStatePlay) || (old(ss.state) == ServerSessionStatePreRecord && ss.state == ServerSessionStateRecord) || (old(ss.state) == ServerSessionStatePlay && ss.state == ServerSessionStatePrePlay) || (old(ss.state) == ServerSessionStateRecord && ss.state == ServerSessionStatePreRecord)
 //@   modifies *
